@@ -702,6 +702,7 @@ def run(report, p):
     else:
         r12.check(True, vdh, vdh.node, "")
 
+    include_rules(report, p, 'c03', ['R3.19'], 'verify -dh must reach its exit decision on every tree: a summary that divides by the number of compared records raises on a flat unchanged folder')
     include_rules(report, p, 'c03', ['R3.16'], 'verify -dh decides its exit code after the traversal: a TypeError from sorting collected records ends the command with exit 1 instead of 12')
     include_rules(report, p, 'c06', ['R6.3'], 'the loader recognises every manifest name the tool generates, for every folder name: a generation that is silently passed over makes the history look shorter or empty' + ' - verify -dh then exits 0 on any change')
     include_rules(report, p, 'c03', ['R3.11'], 'verify -dh reports every mismatch through the logger before it decides its exit code')
